@@ -198,6 +198,8 @@ def big_model(which, seed):
     from .. import docspace as D
     if which == 'giant':
         return D.giant_model(seed)
+    if which == 'distinct':
+        return D.distinct_single_model(seed)
     if which.startswith('aligned'):
         return D.aligned_model(seed, int(which[7:]))
     # fourteen spines (two-digit ids: [1, 2] / [12], [1, 3] / [13] written without a separator coincide), ~90 rows
@@ -341,7 +343,7 @@ def run(ctx):
     ctx.assumptions = ['reference exporter kv/model.py; agnostic pitch from kv/pitchref.py anchored at the clef object\'s own bottom line (C10 decides the anchor)',
                        'comparison leniencies of DESIGN §2.1']
     nparts = 8
-    ctx.pmap(_big_job, [(w, ctx.seed, p) for w in ('giant', 'wide14', 'aligned128', 'aligned256', 'aligned1100') for p in range(4)], chunksize=1)
+    ctx.pmap(_big_job, [(w, ctx.seed, p) for w in ('giant', 'wide14', 'aligned128', 'aligned256', 'aligned1100', 'distinct') for p in range(4)], chunksize=1)
     ctx.pmap(_job, [(di, ctx.tier, ctx.seed, p, nparts) for di in range(len(fam)) for p in range(nparts)], chunksize=1)
     # (measure ranges are not driven on the documents with invisible barlines: what a measure is when a barline is hidden in one column only is not settled by any property)
     ctx.pmap(_range_job, [(di, ctx.tier, ctx.seed) for di in range(len(fam)) if 'hidden-barlines' not in fam[di][0]], chunksize=1)
